@@ -341,7 +341,8 @@ Record pthread := mkPT { todo : list (list pev);     (* calls still to make *)
 Record pool := mkPool { holder : list (nat * nat);   (* object -> thread that got it and has not put it back *)
                         nobj : nat;                  (* objects created so far: 0 .. nobj-1 *)
                         pth : list pthread;
-                        perr : bool }.               (* an object was touched by a thread not holding it, or an alias escaped *)
+                        perr : bool;
+                        transit : list nat }.              (* objects travelling through the queue, oldest first *)               (* an object was touched by a thread not holding it, or an alias escaped *)
 
 Fixpoint alookup (k : nat) (l : list (nat * nat)) : option nat :=
   match l with [] => None | (a, b) :: r => if Nat.eqb a k then Some b else alookup k r end.
@@ -363,34 +364,53 @@ Definition pool_step (i pick : nat) (p : pool) : option pool :=
     match now t with
     | [] => match todo t with
             | [] => None
-            | s :: r => Some (mkPool (holder p) (nobj p) (upd (pth p) i (mkPT r s [])) (perr p))
+            | s :: r => Some (mkPool (holder p) (nobj p) (upd (pth p) i (mkPT r s [])) (perr p) (transit p))
             end
     | e :: k =>
       match e with
       | EGet sl =>
           if Nat.leb pick (nobj p) && match alookup pick (holder p) with None => true | Some _ => false end
           then Some (mkPool ((pick, i) :: holder p) (if Nat.eqb pick (nobj p) then S (nobj p) else nobj p)
-                            (upd (pth p) i (mkPT (todo t) k ((sl, pick) :: aremove sl (slots t)))) (perr p))
+                            (upd (pth p) i (mkPT (todo t) k ((sl, pick) :: aremove sl (slots t)))) (perr p) (transit p))
           else None
       | EUse sl =>
-          Some (mkPool (holder p) (nobj p) (upd (pth p) i (mkPT (todo t) k (slots t))) (perr p || negb (may_touch i sl t p)))
+          Some (mkPool (holder p) (nobj p) (upd (pth p) i (mkPT (todo t) k (slots t))) (perr p || negb (may_touch i sl t p)) (transit p))
       | EUse2 a b =>
           Some (mkPool (holder p) (nobj p) (upd (pth p) i (mkPT (todo t) k (slots t)))
-                       (perr p || negb (may_touch i a t p) || negb (may_touch i b t p)))
+                       (perr p || negb (may_touch i a t p) || negb (may_touch i b t p)) (transit p))
       | EReturnAlias sl =>
-          Some (mkPool (holder p) (nobj p) (upd (pth p) i (mkPT (todo t) k (slots t))) true)
+          Some (mkPool (holder p) (nobj p) (upd (pth p) i (mkPT (todo t) k (slots t))) true (transit p))
       | EPut sl =>
           match alookup sl (slots t) with
           | Some o => Some (mkPool (aremove o (holder p)) (nobj p)
                                    (upd (pth p) i (mkPT (todo t) k (aremove sl (slots t))))
-                                   (perr p || negb (may_touch i sl t p)))
-          | None => Some (mkPool (holder p) (nobj p) (upd (pth p) i (mkPT (todo t) k (slots t))) true)
+                                   (perr p || negb (may_touch i sl t p)) (transit p))
+          | None => Some (mkPool (holder p) (nobj p) (upd (pth p) i (mkPT (todo t) k (slots t))) true (transit p))
+          end
+      | ESend sl =>      (* the object goes into the queue; the sender's slot is cleared (it nominally stays the holder
+                            until somebody receives it, so the pool cannot hand it out meanwhile) *)
+          match alookup sl (slots t) with
+          | Some o => Some (mkPool (holder p) (nobj p) (upd (pth p) i (mkPT (todo t) k (aremove sl (slots t))))
+                                   (perr p || negb (may_touch i sl t p)) (transit p ++ [o]))
+          | None => Some (mkPool (holder p) (nobj p) (upd (pth p) i (mkPT (todo t) k (slots t))) true (transit p))
+          end
+      | ERecv sl =>      (* the oldest object in the queue becomes the receiver's; an empty queue blocks the receiver *)
+          match transit p with
+          | o :: r => Some (mkPool ((o, i) :: aremove o (holder p)) (nobj p)
+                                   (upd (pth p) i (mkPT (todo t) k ((sl, o) :: aremove sl (slots t)))) (perr p) r)
+          | [] => None
+          end
+      | EDrop sl =>      (* the reference is forgotten without Put: the object is never handed out again *)
+          match alookup sl (slots t) with
+          | Some o => Some (mkPool (holder p) (nobj p) (upd (pth p) i (mkPT (todo t) k (aremove sl (slots t))))
+                                   (perr p || negb (may_touch i sl t p)) (transit p))
+          | None => Some (mkPool (holder p) (nobj p) (upd (pth p) i (mkPT (todo t) k (slots t))) true (transit p))
           end
       end
     end
   end.
 Definition pool_init (calls : list (list (list pev))) : pool :=
-  mkPool [] 0 (map (fun c => mkPT c [] []) calls) false.
+  mkPool [] 0 (map (fun c => mkPT c [] []) calls) false [].
 
 (* syntactic discipline of one call: every use of a slot lies between its Get and its Put, no alias is
    returned, nothing is still held at the end *)
@@ -404,7 +424,8 @@ Fixpoint disciplined (live : list nat) (l : list pev) : bool :=
     | EUse sl => lmem sl live && disciplined live r
     | EUse2 a b => lmem a live && lmem b live && disciplined live r
     | EReturnAlias _ => false
-    | EPut sl => lmem sl live && disciplined (filter (fun x => negb (Nat.eqb x sl)) live) r
+    | EPut sl | ESend sl | EDrop sl => lmem sl live && disciplined (filter (fun x => negb (Nat.eqb x sl)) live) r
+    | ERecv sl => negb (lmem sl live) && disciplined (sl :: live) r
     end
   end.
 
